@@ -29,7 +29,7 @@ type C19Case struct {
 
 var (
 	c19Retries = []int{1, 2, 4}
-	c19Waits   = []time.Duration{0, 10 * time.Millisecond, time.Hour}
+	c19Waits   = []time.Duration{0, 10*time.Millisecond + 500*time.Microsecond + time.Nanosecond, time.Hour} // the middle value is not a whole number of ms or us: a form that rounds it differs from one that does not
 	c19Conc    = []int{0, 1, 3}
 	c19Modes   = []bool{true, false, true} // continueOnError
 )
